@@ -336,18 +336,20 @@ class Interp:
         if not isinstance(fn, types.FunctionType):
             return False
         mod = getattr(fn, "__module__", None) or ""
-        if not mod.startswith(self.repo_prefixes):
-            # dataclass-augmentation code generated by the repository
-            g = fn.__globals__
-            if "_MODULE_SOURCE_CODE" in g and "cls" in g and \
-                    fn.__code__.co_filename.startswith(
-                        "<dataclass augmentation"):
+        fname = fn.__code__.co_filename
+        g = fn.__globals__
+        if fname.startswith("<"):
+            if "_MODULE_SOURCE_CODE" not in g:
+                return False
+            # code generated by the repository itself (dataclass augmentation)
+            # or from repository source (pymbolic's optimize_mapper): the
+            # generated text is kept in _MODULE_SOURCE_CODE and is what runs
+            if fname.startswith("<dataclass augmentation") and "cls" in g:
                 return True
-            return False
-        if fn.__code__.co_filename.startswith("<"):
-            g = fn.__globals__
-            return "_MODULE_SOURCE_CODE" in g
-        return True
+            if "modified by optimize_mapper" in fname:
+                return any(f"/{p}/" in fname for p in self.repo_prefixes)
+            return mod.startswith(self.repo_prefixes)
+        return mod.startswith(self.repo_prefixes)
 
     def _log(self, kind, what):
         k = (kind, what)
@@ -1156,7 +1158,12 @@ def _defining_class(fn):
         if "_MODULE_SOURCE_CODE" in g and "cls" in g:
             return g["cls"]
         return None
-    mod = sys.modules.get(fn.__module__)
+    mod = sys.modules.get(fn.__module__) if fn.__module__ else None
+    if mod is None:
+        # classes rebuilt by optimize_mapper live in their exec namespace
+        obj = fn.__globals__.get(qn.split(".")[0])
+        return obj if isinstance(obj, type) and len(qn.split(".")) == 2 \
+            else None
     obj = mod
     try:
         for part in qn.split(".")[:-1]:
